@@ -7,4 +7,5 @@ CONSTANTS
   Tasks <- MCTasks
   ThreadOf <- MCThreadOfShared
 INVARIANTS NoOverlap
+VIEW MCView
 CHECK_DEADLOCK FALSE
